@@ -8,4 +8,13 @@ require (
 	golang.org/x/tools v0.29.0
 )
 
+require (
+	github.com/google/uuid v1.6.0 // indirect
+	golang.org/x/mod v0.22.0 // indirect
+	golang.org/x/sync v0.10.0 // indirect
+	verifrt v0.0.0
+)
+
 replace github.com/gopcua/opcua => /repo
+
+replace verifrt => ./engine/verifrt
